@@ -143,8 +143,14 @@ fn json_to_tree_full<const N: usize, X>(v: &Value, perm: &mut dyn FnMut(usize) -
 	Ok(m)
 }
 
+thread_local! {
+	/// Set by `drivers::exec` from the record's "rev": every mapping set of the record is built with the entries of each level
+	/// inserted in the opposite order (quill keeps them in IndexMaps; what an operation answers may not depend on that order).
+	pub static REV: std::cell::Cell<bool> = const { std::cell::Cell::new(false) };
+}
+
 fn permuted<'a>(mut v: Vec<(&'a String, &'a Value)>, perm: &mut dyn FnMut(usize) -> Option<Vec<usize>>) -> Vec<(&'a String, &'a Value)> {
-	if let Some(p) = perm(v.len()) {
+	if let Some(p) = perm(v.len()).or_else(|| if REV.with(|r| r.get()) { Some((0..v.len()).rev().collect()) } else { None }) {
 		let old = std::mem::take(&mut v);
 		v = p.into_iter().map(|i| old[i]).collect();
 	}
